@@ -145,7 +145,11 @@ class Act(object):
                 inits['name'] = self.actor  # as yet unresolved name string
             inits['store'] = self.frame.store
             inits['act'] = self
-            self.actor = actor = actor(**inits) # instantiate and convert
+            try:
+                self.actor = actor = actor(**inits) # instantiate and convert
+            except TypeError as ex:  # init args come from script 'cum' and 'qua' clauses
+                msg = "ResolveError: Bad init arguments for actor. {0}".format(ex)
+                raise excepting.ResolveError(msg, inits['name'], self, self.human, self.count)
 
             if self.prerefs: # preinits parms dict items 'do from'
                 # each key is share src path, and value is list of src fields
@@ -188,7 +192,11 @@ class Act(object):
 
 
             if ioinits:
-                iois = actor._initio(ioinits)  # .inode may be changed in here
+                try:
+                    iois = actor._initio(ioinits)  # .inode may be changed in here
+                except TypeError as ex:  # ioinit args come from script 'per' and 'for' clauses
+                    msg = "ResolveError: Bad ioinit arguments for actor. {0}".format(ex)
+                    raise excepting.ResolveError(msg, actor.name, self, self.human, self.count)
                 if iois:
                     for key, ioi in iois.items():
                         if key == "inode":  # compute the final inode
